@@ -124,10 +124,32 @@ def g_axioms(X, n):
             COMP(X, n, 1) == GI(RES(X, n, 1), n), RES(X, n, 2) == vsub(RES(X, n, 1), COMP(X, n, 1))]
 
 
+def _same(a, b):
+    try:
+        return bool(a == b)
+    except Exception:
+        return a is b
+
+
+def opts_forwarded(exp, got_imf, envelope_opts, extrema_opts):
+    """every option the caller of the sift gave reaches the single-IMF extraction with the same value (extra keys are not judged here)"""
+    ok = all(k in got_imf and _same(got_imf[k], v) for k, v in (exp.get('imf_opts') or {}).items())
+    for name, got in (('envelope_opts', envelope_opts), ('extrema_opts', extrema_opts)):
+        want = exp.get(name) or {}
+        got = got or {}
+        ok = ok and all(k in got and _same(got[k], v) for k, v in want.items())
+    return ok
+
+
 def get_next_imf_stub(X, env_step_size=1, max_iters=1000, energy_thresh=None, stop_method='sd', sd_thresh=.1, rilling_thresh=(0.05, 0.5, 0.05),
                       envelope_opts=None, extrema_opts=None):
     c = core.C()
     c.oblige('get_next_imf:requires-no-energy-threshold-in-this-unit', z3.BoolVal(energy_thresh is None), 'pre')
+    exp = c.ghost.get('caller_opts')
+    if exp is not None:
+        # the extraction of every layer runs under the option set the caller of the sift passed (every key the caller gave arrives unchanged)
+        got = dict(env_step_size=env_step_size, max_iters=max_iters, energy_thresh=energy_thresh, stop_method=stop_method, sd_thresh=sd_thresh, rilling_thresh=rilling_thresh)
+        c.oblige('get_next_imf:called-with-the-callers-option-set', z3.BoolVal(opts_forwarded(exp, got, envelope_opts, extrema_opts)), 'pre')
     x = vreify(X)
     n = X.shape_e[0]
     c.ghost['n_gni'] = c.ghost.get('n_gni', 0) + 1
